@@ -17,7 +17,7 @@ DH_PARAMS = rg.enc_ffc_dh_parameters(256, common.RFC5114_P, common.RFC5114_G)
 
 def root_key(rng: random.Random, hash_name: str, alg: str) -> cms.RootKey:
     if alg == "DH":
-        return cms.RootKey(rng.randbytes(64), hash_name, "DH", DH_PARAMS, 512, 2048)
+        return cms.RootKey(rng.randbytes(64), hash_name, "DH", DH_PARAMS, rng.choice([512, 512, 521, 264, 2048]), 2048)
     bits = 256 if alg.endswith("256") else 384
     return cms.RootKey(rng.randbytes(64), hash_name, alg, b"", bits, bits)
 
@@ -132,6 +132,16 @@ def check_conversation(core: DCCore, since: int, expect_getkey: tuple, auth_type
         got = (gk["target_sd"], gk["root_key_id"], gk["l0"], gk["l1"], gk["l2"])
         if got != expect_getkey:
             bad.append(("getkey-arguments", f"GetKey({len(got[0])}B sd, {got[1]}, {got[2:]}) expected ({len(expect_getkey[0])}B sd, {expect_getkey[1]}, {expect_getkey[2:]}); sd equal: {got[0] == expect_getkey[0]}"))
+    for c in conns:
+        for ptype, flags, drep, call_id, ver in c.ev_headers:
+            if ver != b"\x05\x00" or drep != rrpc.DREP_LE or (flags & 0x03) != 0x03 or (flags & rrpc.PFC_OBJECT_UUID):
+                bad.append(("pdu-header-fields", f"{c.kind} PDU type {ptype}: version {ver.hex()} drep {drep.hex()} flags 0x{flags:02x} (expected 5.0, little-endian/ASCII/IEEE, FIRST|LAST, no object UUID)"))
+        ids = [h[3] for h in c.ev_headers]
+        if any(i == 0 for i in ids):
+            bad.append(("pdu-header-fields", f"{c.kind} connection used call id 0: {ids}"))
+    r_obj = isd_c.events[-1].get("obj") if isd_c.events else None
+    if r_obj is not None:
+        bad.append(("pdu-header-fields", f"GetKey request carries an object UUID {r_obj}"))
     ports = [p for (_, _, p) in connect_log]
     if ports != [135, isd_port]:
         bad.append(("ports-used", f"connections to ports {ports}, expected [135, {isd_port}]"))
